@@ -185,6 +185,14 @@ def numpy_loop(ctx, fi, bounded_expected: bool):
     for st in node.body[:li]:
         if isinstance(st, ast.Assign) and isinstance(st.targets[0], ast.Name):
             defs[st.targets[0].id] = st.value
+        elif isinstance(st, ast.If) and not st.orelse and isinstance(st.test, ast.Compare) and len(st.test.ops) == 1 and \
+                isinstance(st.test.ops[0], ast.Is) and isinstance(st.test.left, ast.Name) and \
+                isinstance(st.test.comparators[0], ast.Constant) and st.test.comparators[0].value is None and \
+                isinstance(defs.get(st.test.left.id), ast.Constant) and defs[st.test.left.id].value is None and \
+                len(st.body) == 1 and isinstance(st.body[0], ast.Assign) and len(st.body[0].targets) == 1 and \
+                isinstance(st.body[0].targets[0], ast.Name) and st.body[0].targets[0].id == st.test.left.id:
+            # x = None ... if x is None: x = E   (an optional size bound to its default None): x is E
+            defs[st.test.left.id] = st.body[0].value
     alloc = defs.get(buf)
     if isinstance(alloc, ast.Call) and (dotted(alloc.func) or "").endswith("zeros") and alloc.args:
         shp = alloc.args[0]
@@ -510,14 +518,59 @@ def jax_routine(ctx):
                  f"(sampler.propagate_phaseless_ad_1 passes ham_data['chol'].shape[0] for a norb^2 x norb^2 matrix)")
 
 
+def counted_before_exit(ctx, fi):
+    """PAIR-4 (must pass through): the residual that the threshold test judges is diag - sum_x L_x^2 over the vectors
+    *accumulated* so far (Mapprox += chol_vecs[c] * chol_vecs[c]); the vectors *returned* are chol_vecs[:c].  The two
+    agree at the loop head because every iteration that accumulates vector c also advances c.  An exit taken between the
+    accumulation and the increment (a break / return inside the body) hands back one vector fewer than the residual it
+    just tested was computed with: the returned factorisation is worse than the threshold that stopped the loop."""
+    loops = [n for n in ast.walk(fi.node) if isinstance(n, ast.While)]
+    if len(loops) != 1:
+        ctx.rep.note(f"{fi.qualname}: not a single while loop; the accumulate / count / exit ordering rule is not applied")
+        return
+    body = loops[0].body
+    acc = cnt = None
+    counter = None
+    for i, st in enumerate(body):
+        if isinstance(st, ast.AugAssign) and isinstance(st.op, ast.Add) and isinstance(st.value, ast.BinOp) and \
+                isinstance(st.value.op, (ast.Mult, ast.Pow)):
+            subs = [n for n in ast.walk(st.value) if isinstance(n, ast.Subscript) and isinstance(n.slice, ast.Name)]
+            if subs and len({ast.unparse(x) for x in subs}) == 1 and acc is None:
+                acc, counter = i, subs[0].slice.id
+    if acc is None:
+        ctx.rep.note(f"{fi.qualname}: no accumulation `X += vecs[c] * vecs[c]` at the top level of the loop body; the "
+                     f"accumulate / count / exit ordering rule is not applied")
+        return
+    for i, st in enumerate(body):
+        if isinstance(st, ast.AugAssign) and isinstance(st.op, ast.Add) and isinstance(st.target, ast.Name) and \
+                st.target.id == counter and isinstance(st.value, ast.Constant) and st.value.value == 1:
+            cnt = i
+    if cnt is None or cnt < acc:
+        ctx.rep.note(f"{fi.qualname}: the counter '{counter}' is not advanced by a top-level `{counter} += 1` after the "
+                     f"accumulation; the ordering rule is not applied")
+        return
+    early = []
+    for i in range(acc + 1, cnt):
+        for n in ast.walk(body[i]):
+            if isinstance(n, (ast.Break, ast.Return)):
+                early.append(n.lineno)
+    ctx.ob("PAIR-4", f"{fi.qualname}: no exit between accumulating vector '{counter}' into the residual and counting it",
+           not early, f"`{counter} += 1` follows the accumulation on every path to an exit" if not early else
+           f"break / return at line {early[0]} leaves the loop after vector {counter} entered the tested residual and before "
+           f"`{counter} += 1`: chol_vecs[:{counter}] is one vector short of the residual that passed the test", fi,
+           early[0] if early else None)
+
+
 def run(ctx):
     p = ctx.p
     f1 = p.func("pyscf_interface.modified_cholesky")
     numpy_loop(ctx, f1, bounded_expected=True)
     pivot_pairing(ctx, f1)
+    counted_before_exit(ctx, f1)
     f2 = p.func("pyscf_interface.chunked_cholesky")
     numpy_loop(ctx, f2, bounded_expected=False)
     pivot_pairing(ctx, f2)
+    counted_before_exit(ctx, f2)
     jax_routine(ctx)
     # call site: symmetrised ERI tensor reshaped to a square (n^2 x n^2) matrix, n as the orbital count, as many
     # vectors as the Hamiltonian carries -- decided on the value graph of the caller
